@@ -134,6 +134,60 @@ func Diff(before, after Snapshot, ignore func(rel string) bool) []string {
 	return out
 }
 
+// Change is one difference between two snapshots in structured form: Kind is "created", "deleted"
+// or "changed"; Before / After are nil for created / deleted paths.
+type Change struct {
+	Kind   string
+	Path   string
+	Before *Entry
+	After  *Entry
+}
+
+// String renders the change exactly as Diff does.
+func (c Change) String() string {
+	switch c.Kind {
+	case "deleted":
+		return fmt.Sprintf("deleted %s (%s)", c.Path, c.Before.Type)
+	case "changed":
+		return fmt.Sprintf("changed %s: %s", c.Path, describeChange(*c.Before, *c.After))
+	}
+	extra := ""
+	if c.After.Type == "symlink" {
+		extra = " -> " + c.After.Link
+	}
+	return fmt.Sprintf("created %s (%s%s)", c.Path, c.After.Type, extra)
+}
+
+// Changes is Diff in structured form (sorted by the rendered line).
+func Changes(before, after Snapshot, ignore func(rel string) bool) []Change {
+	var out []Change
+	for p, b := range before {
+		if ignore != nil && ignore(p) {
+			continue
+		}
+		b := b
+		a, ok := after[p]
+		if !ok {
+			out = append(out, Change{Kind: "deleted", Path: p, Before: &b})
+			continue
+		}
+		if a != b {
+			out = append(out, Change{Kind: "changed", Path: p, Before: &b, After: &a})
+		}
+	}
+	for p, a := range after {
+		if ignore != nil && ignore(p) {
+			continue
+		}
+		if _, ok := before[p]; !ok {
+			a := a
+			out = append(out, Change{Kind: "created", Path: p, After: &a})
+		}
+	}
+	sort.Slice(out, func(i, j int) bool { return out[i].String() < out[j].String() })
+	return out
+}
+
 func describeChange(b, a Entry) string {
 	var parts []string
 	if a.Type != b.Type {
